@@ -237,6 +237,9 @@ def _build_new_state(con, pc, clauses_fn_result, lineno):
     for it in plain:
         cl = it.clause(pc) if callable(it.clause) else it.clause
         s.assume(cl)
+    cg = dict(s.ghost.get("call_ghosts", {}))
+    cg[con.name] = dict(pc._ghosts)
+    s.ghost["call_ghosts"] = cg
     return res
 
 
